@@ -234,6 +234,7 @@ const (
 	LElem                  // element of a slice value (read-only)
 	LAElem                 // element of an array stored in a location
 	LLocal                 // non-escaping local variable (or a field path inside one)
+	LBufElem               // one byte of a local byte buffer
 )
 
 type Loc struct {
@@ -245,6 +246,7 @@ type Loc struct {
 	Global *ssa.Global  // LGlobal
 	Slice  *Val         // LElem
 	Idx    string       // LElem
+	Buf    *bufRef      // LBufElem
 	Local  string       // LLocal: variable name (heap var prefix)
 	LocalT types.Type   // LLocal: type stored at this path
 }
